@@ -224,6 +224,10 @@ fn c10_cases() -> Vec<(Box<dyn Subject>, generic::StreamCase)> {
         (subjects::make("cnf", "i32", false), case("cnf-comment-run", b"p cnf 1 1\n", b"c a comment line\n", b"1 0\n", 20)),
         (subjects::make("wcnf", "i32", true), case("wcnf-blank-and-comment-run", b"", b"c x\n\n \t\n", b"3 1 0\n", 12)),
         (subjects::make("cnf", "i32", false), case("cnf-split-clause-comments", b"1\n", b"c inside a clause\n\n", b"0\n", 20)),
+        // variables, weights and groups that never repeat: nothing may be remembered per clause
+        (subjects::make("cnf", "i32", false), case("cnf-distinct-variables", b"p cnf 99999999 0\n", b"######## -######## 0\n", b"", 24)),
+        (subjects::make("wcnf", "i64", true), case("wcnf-distinct-weights", b"", b"######## ######## -1 0\n", b"", 24)),
+        (subjects::make("gcnf", "i32", false), case("gcnf-distinct-groups", b"p gcnf 99999999 0 99999999\n", b"{########} ######## 0\n", b"", 24)),
         // large DECLARED counts with small items: memory must not follow the header's numbers
         (subjects::make("cnf", "i32", false), case("cnf-large-declared-variable-count", b"p cnf 20000000 0\n", b"1 -2 3 0\n-20000000 0\n", b"", 16)),
         (subjects::make("wcnf", "i64", false), case("wcnf-large-declared-counts", b"p wcnf 20000000 0 18446744073709551615\n", b"5 1 -2 0\n7 -20000000 0\n", b"", 16)),
